@@ -23,6 +23,19 @@
 #include <unifex/type_erased_stream.hpp>
 #include <unifex/inline_scheduler.hpp>
 #include <unifex/scheduler_concepts.hpp>
+#include <unifex/adapt_stream.hpp>
+#include <unifex/next_adapt_stream.hpp>
+#include <unifex/cleanup_adapt_stream.hpp>
+#include <unifex/via_stream.hpp>
+#include <unifex/typed_via_stream.hpp>
+#include <unifex/on_stream.hpp>
+#include <unifex/delay.hpp>
+#include <unifex/then.hpp>
+#include <unifex/via.hpp>
+#include <unifex/typed_via.hpp>
+#include <unifex/on.hpp>
+#include <unifex/finally.hpp>
+#include <chrono>
 
 #include <malloc.h>
 #include <cstdio>
@@ -279,6 +292,66 @@ void src_next_op<Receiver>::start() noexcept {
   if (pending_inline) { pending_inline = false; if (reactive) do_complete(this, 'd', 0); }
 }
 
+// ---- harness scheduler (SCalc: the scheduler ids of the sender adaptors AVia / ATypedVia / AOn / ADelay) -------------
+// An inline, stop-insensitive execution context: schedule() / schedule_after(d) log `hop <sid> <d>` and complete
+// with a value from inside start(), whatever the receiver's stop token says.  HOP_CTX is the context the code
+// currently runs on (0 = none); a hop's continuation runs with HOP_CTX == sid.
+inline int HOP_CTX = 0;
+struct hsched {
+  int sid;
+  template <typename Receiver>
+  struct op {
+    int sid; int d; Receiver r;
+    void start() noexcept {
+      log("hop " + std::to_string(sid) + " " + std::to_string(d));
+      const int saved = HOP_CTX; HOP_CTX = sid;
+      unifex::set_value(std::move(r));
+      HOP_CTX = saved;
+    }
+  };
+  struct sender {
+    template <template <typename...> class Variant, template <typename...> class Tuple>
+    using value_types = Variant<Tuple<>>;
+    template <template <typename...> class Variant>
+    using error_types = Variant<>;
+    static constexpr bool sends_done = false;
+    static constexpr unifex::blocking_kind blocking = unifex::blocking_kind::always_inline;
+    static constexpr bool is_always_scheduler_affine = false;
+    int sid; int d;
+    template <typename R>
+    friend op<unifex::remove_cvref_t<R>> tag_invoke(unifex::tag_t<unifex::connect>, const sender& s, R&& r) {
+      return op<unifex::remove_cvref_t<R>>{s.sid, s.d, (R&&)r};
+    }
+  };
+  using time_point = std::chrono::steady_clock::time_point;
+  friend sender tag_invoke(unifex::tag_t<unifex::schedule>, const hsched& s) noexcept { return {s.sid, 0}; }
+  template <typename Rep, typename Period>
+  friend sender tag_invoke(unifex::tag_t<unifex::schedule_after>, const hsched& s, std::chrono::duration<Rep, Period> d) noexcept {
+    return {s.sid, (int)std::chrono::duration_cast<std::chrono::milliseconds>(d).count()};
+  }
+  friend time_point tag_invoke(unifex::tag_t<unifex::now>, const hsched&) noexcept { return time_point{}; }
+  friend bool operator==(const hsched& a, const hsched& b) noexcept { return a.sid == b.sid; }
+  friend bool operator!=(const hsched& a, const hsched& b) noexcept { return a.sid != b.sid; }
+};
+
+// ---- the sender adaptors handed to adapt_stream / next_adapt_stream / cleanup_adapt_stream (SCalc.sadapt) ----
+struct ad_id { template <typename S> unifex::remove_cvref_t<S> operator()(S&& s) const { return (S&&)s; } };
+struct ad_then { fnobj f; template <typename S> auto operator()(S&& s) const { return unifex::then((S&&)s, f); } };
+struct ad_via { hsched sch; template <typename S> auto operator()(S&& s) const { return unifex::via((S&&)s, sch); } };
+#pragma GCC diagnostic push
+#pragma GCC diagnostic ignored "-Wdeprecated-declarations"
+struct ad_tvia { hsched sch; template <typename S> auto operator()(S&& s) const { return unifex::typed_via((S&&)s, sch); } };
+template <typename Stream>
+auto tvia_stream(hsched sch, Stream&& s) { return unifex::typed_via_stream(sch, (Stream&&)s); }
+#pragma GCC diagnostic pop
+struct ad_on { hsched sch; template <typename S> auto operator()(S&& s) const { return unifex::on(sch, (S&&)s); } };
+struct ad_delay {
+  hsched sch; int d;
+  template <typename S> auto operator()(S&& s) const {
+    return unifex::finally((S&&)s, unifex::schedule_after(sch, std::chrono::milliseconds(d)));
+  }
+};
+
 // ---- root receiver --------------------------------------------------------------------------------------
 inline int roots = 0;
 struct root_receiver {
@@ -310,7 +383,7 @@ inline std::vector<script_ev> parse_script(std::istream& is) {
 
 template <typename MakeSender>
 std::string run_case(MakeSender mk, int prestop, const std::vector<script_ev>& script) {
-  LOG.clear(); roots = 0; QUIET = false; VIOLS = 0;
+  LOG.clear(); roots = 0; QUIET = false; VIOLS = 0; HOP_CTX = 0;
   std::memset(OPS_CTOR, 0, sizeof OPS_CTOR); std::memset(OPS_DTOR, 0, sizeof OPS_DTOR);
   for (auto& c : NCTL) c = ctl{};
   for (auto& c : CCTL) c = ctl{};
